@@ -603,6 +603,126 @@ impl Serialize for Exact {
     }
 }
 
+/// C01 for values that reach the encoder through `collect_str` (Display-formatted text: `fmt::Arguments`,
+/// display-as-string newtypes): what is decoded as a string equals the formatted text, and exactly the produced
+/// bytes are consumed, for every encode / decode entry point pairing exercised here.
+fn c01_extras(t: &mut Tctx) {
+    let rounds = t.cfg.scale(10, 8_000, 160_000);
+    for _ in 0..rounds {
+        if t.cfg.expired() {
+            break;
+        }
+        let np = *t.rng.pick(&[1usize, 2, 3, 4, 7]);
+        let pieces: Vec<String> = (0..np)
+            .map(|_| match t.rng.below(4) {
+                0 => String::new(),
+                1 => gen_string(&mut t.rng, 120),
+                2 => gen_char(&mut t.rng).to_string(),
+                _ => gen_string(&mut t.rng, 10),
+            })
+            .collect();
+        let p = Pieces(pieces);
+        let text = p.to_string();
+        let f = Fancy(gen_int(&mut t.rng, 64) as i64, gen_string(&mut t.rng, 20));
+        for (what, want, enc) in [
+            ("pieces", text.clone(), catch(|| postcard::to_allocvec(&Collected(&p)))),
+            ("pieces-slice", text.clone(), catch(|| {
+                let mut b = vec![0u8; text.len() + 12];
+                postcard::to_slice(&Collected(&p), &mut b).map(|s| s.to_vec())
+            })),
+            ("fmt", f.to_string(), catch(|| postcard::to_allocvec(&CollectedF(&f)))),
+            ("fmt-io", f.to_string(), catch(|| postcard::to_io(&CollectedF(&f), Vec::new()))),
+            ("arguments", format!("{}-{}", f.1, f.0), catch(|| postcard::to_allocvec(&format_args!("{}-{}", f.1, f.0)))),
+        ] {
+            t.st.eval();
+            t.st.count("c01_formatted_text_roundtrips");
+            t.st.nontrivial(fp_mix(0xC01_F0, fp(want.as_bytes())));
+            let rp = || vec![kv("kind", "collect_str"), kv("what", what), kv("text_hex", crate::json::hex(want.as_bytes()))];
+            let bytes = match enc {
+                Ok(Ok(b)) => b,
+                other => {
+                    t.st.violation("C01:formatted-text-encode-failed", format!("{}: encoding {:?} gave {:?}", what, want, other.map(|r| r.map(|_| ()).map_err(|e| err_label(&e)))), rp());
+                    return;
+                }
+            };
+            let mut with_tail = bytes.clone();
+            with_tail.extend_from_slice(&[0xAA, 0x55]);
+            let back = catch(|| (postcard::from_bytes::<String>(&bytes), postcard::take_from_bytes::<&str>(&with_tail).map(|(s, r)| (s.to_string(), r.len()))));
+            let ok = matches!(&back, Ok((Ok(a), Ok((b, 2)))) if *a == want && *b == want);
+            if !ok {
+                t.st.violation(
+                    "C01:formatted-text-roundtrip-differs",
+                    format!("{}: text {:?} ({} bytes) encoded to {} decodes to {:?}", what, want, want.len(), hexs(&bytes), back.map(|(a, b)| (a.map_err(|e| err_label(&e)), b.map_err(|e| err_label(&e))))),
+                    rp(),
+                );
+                return;
+            }
+        }
+    }
+}
+
+/// A sequence of `n` zero-sized elements that is never materialised: serialised element by element, and counted
+/// element by element when decoded.  Lets collection counts beyond 2^32 make the round trip.
+struct Units(u64);
+impl Serialize for Units {
+    fn serialize<S: serde::Serializer>(&self, s: S) -> Result<S::Ok, S::Error> {
+        use serde::ser::SerializeSeq;
+        let mut q = s.serialize_seq(Some(self.0 as usize))?;
+        for _ in 0..self.0 {
+            q.serialize_element(&())?;
+        }
+        q.end()
+    }
+}
+impl<'de> serde::Deserialize<'de> for Units {
+    fn deserialize<D: serde::Deserializer<'de>>(d: D) -> Result<Self, D::Error> {
+        struct V;
+        impl<'de> serde::de::Visitor<'de> for V {
+            type Value = Units;
+            fn expecting(&self, f: &mut std::fmt::Formatter) -> std::fmt::Result {
+                f.write_str("a sequence of units")
+            }
+            fn visit_seq<A: serde::de::SeqAccess<'de>>(self, mut a: A) -> Result<Units, A::Error> {
+                let mut n = 0u64;
+                while a.next_element::<()>()?.is_some() {
+                    n += 1;
+                }
+                Ok(Units(n))
+            }
+        }
+        d.deserialize_seq(V)
+    }
+}
+
+/// C01 for collection counts around and beyond 2^32 (64-bit hosts): the decoded sequence has as many elements
+/// as were encoded.  (In an optimised build the 2 x n element visits of zero-sized elements collapse to closed forms.)
+fn c01_huge_counts(t: &mut Tctx) {
+    #[cfg(target_pointer_width = "64")]
+    for n in [(1u64 << 32) + 3, (1u64 << 32) - 1, 1u64 << 32] {
+        if t.cfg.expired() {
+            break;
+        }
+        t.st.eval();
+        t.st.count("c01_huge_count_roundtrips");
+        t.st.nontrivial(fp_mix(0xC01_CAFE, n));
+        let r = catch(|| {
+            let bytes = postcard::to_allocvec(&Units(n))?;
+            let (back, rest) = postcard::take_from_bytes::<Units>(&bytes)?;
+            let (k, rl) = (back.0, rest.len());
+            Ok::<_, postcard::Error>((bytes, k, rl))
+        });
+        match r {
+            Ok(Ok((_, back, 0))) if back == n => {}
+            other => t.st.violation(
+                "C01:huge-count-roundtrip-differs",
+                format!("a sequence of {} zero-sized elements came back as {:?}", n, other.map(|r| r.map(|(b, k, rest)| (hexs(&b), k, rest)).map_err(|e| err_label(&e)))),
+                vec![kv("kind", "huge_count"), kv("n", n.to_string())],
+            ),
+        }
+    }
+    let _ = t;
+}
+
 fn c02_extras(t: &mut Tctx) {
     if t.tid == 0 {
         for k in 0..64u32 {
@@ -1019,11 +1139,64 @@ fn light_scalar(t: &mut Tctx, which: &str, shape: &Shape, v: Val, _sfp: u64) {
 
 // ------------------------------------------------------------------ driver
 
+/// Lean interpreter workload for C01 / C02 (used for the 32-bit target): small shapes and values through
+/// `check_case` in its light form, plus the count-prefix probe for every magnitude a `usize` can hold.
+fn lean_enc(t: &mut Tctx, which: &str) {
+    if which == "C02" {
+        for k in 0..usize::BITS {
+            for d in [-1i128, 0, 1] {
+                let n = ((1u128 << k) as i128 + d).clamp(0, usize::MAX as i128) as usize;
+                let mut want = Vec::new();
+                spec::varint(n as u128, &mut want);
+                t.st.count("c02_declared_len_cases");
+                t.st.eval();
+                for is_map in [false, true] {
+                    if !matches!(catch(|| postcard::to_allocvec(&DeclaredLen(n, is_map))), Ok(Ok(b)) if b == want) {
+                        t.st.violation("C02:count-prefix-differs", format!("count prefix for length {} differs from the specification's varint", n), vec![kv("kind", "declared_len"), kv("n", n.to_string())]);
+                    }
+                }
+            }
+        }
+    }
+    let mut n = 0u64;
+    let limit = t.cfg.knob_u64("lean_shapes", 300);
+    while !t.cfg.expired() && n < limit {
+        n += 1;
+        let shape = match n % 5 {
+            0 => Shape::Struct("T0", vec![("f0", Shape::Usize), ("f1", Shape::Isize), ("f2", Shape::Str), ("f3", Shape::Seq(Box::new(Shape::I64)))]),
+            1 => Shape::Map(Box::new(Shape::Str), Box::new(Shape::Bytes)),
+            _ => {
+                let d = t.rng.range(0, 2) as u32;
+                gen_shape(&mut t.rng, d, &ShapeOpts::small())
+            }
+        };
+        let val = {
+            let mut g = ValGen::small(&mut t.rng);
+            g.max_len = 3;
+            g.max_str = 8;
+            g.gen(&shape)
+        };
+        if spec::encode(&val).len() > 96 {
+            continue;
+        }
+        t.st.count("lean_shapes");
+        let sfp = fp(shape.text().as_bytes());
+        check_case(t, which, &shape, &val, sfp, false);
+    }
+}
+
 pub fn run(cfg: &Cfg, which: &str) -> Report {
     let mut rep = Report::new(which);
     if let Some(p) = &cfg.replay {
         rep.stats = replay(cfg, which, p);
         rep.rule = "replay of one recorded case".into();
+        return rep;
+    }
+    if cfg.tier == Tier::Tiny && cfg.knob_u64("lean", 0) == 1 {
+        let w = which.to_string();
+        let s = parallel(cfg, 1, |t| lean_enc(t, &w));
+        rep.stats.merge(s);
+        rep.rule = "lean interpreter workload: small shapes and values through every encode / decode entry point against the reference encoder, plus count prefixes of every magnitude".into();
         return rep;
     }
     let which_s = which.to_string();
@@ -1106,6 +1279,15 @@ pub fn run(cfg: &Cfg, which: &str) -> Report {
         let s4 = parallel(cfg, 4, |t| c02_extras(t));
         rep.stats.merge(s4);
     }
+    if which == "C01" {
+        let s4 = parallel(cfg, 4, |t| c01_extras(t));
+        rep.stats.merge(s4);
+        rep.floor("c01_formatted_text_roundtrips", 100);
+        if cfg.tier != Tier::Tiny {
+            let s7 = parallel(&Cfg { threads: 1, ..cfg.clone() }, 7, |t| c01_huge_counts(t));
+            rep.stats.merge(s7);
+        }
+    }
     if cfg.tier == Tier::Thorough {
         let s5 = parallel(cfg, 5, |t| enumerate_32bit(t, &which_s));
         rep.stats.merge(s5);
@@ -1173,7 +1355,15 @@ fn replay(cfg: &Cfg, which: &str, p: &std::path::Path) -> Stats {
         }
         _ => {
             // non-dyn cases are regenerated by re-running the relevant lane briefly
-            c02_extras(t);
+            if which == "C01" {
+                if kind == "huge_count" {
+                    c01_huge_counts(t);
+                } else {
+                    c01_extras(t);
+                }
+            } else {
+                c02_extras(t);
+            }
         }
     });
     st.merge(s);
